@@ -180,7 +180,7 @@ theorem body_proxy_inet (proto : Nat) (hproto : proto ≠ tpUnspecified) (s d : 
   rw [parseAddresses_inet s d sp dp _ _ hs hd hsp hdp]
   simp only
   rw [fwd_proxy _ rfl rfl]
-  simp only [if_true]
+  simp only [Bool.true_or, if_true]
   rw [parseTLVs_enc tlvs hwf _ (Nat.le_refl _)]
   simp
 
@@ -194,7 +194,7 @@ theorem body_proxy_inet6 (proto : Nat) (hproto : proto ≠ tpUnspecified) (s d :
   rw [parseAddresses_inet6 s d sp dp _ _ hs hd hsp hdp]
   simp only
   rw [fwd_proxy _ rfl rfl]
-  simp only [if_true]
+  simp only [Bool.true_or, if_true]
   rw [parseTLVs_enc tlvs hwf _ (Nat.le_refl _)]
   simp
 
@@ -208,7 +208,7 @@ theorem body_proxy_unix (hflag : unixIgnoresAddresses = false) (proto : Nat) (hp
   rw [parseAddresses_unix u _ _ hu, hflag]
   simp only [Bool.false_eq_true, if_false]
   rw [fwd_proxy _ rfl rfl]
-  simp only [if_true]
+  simp only [Bool.true_or, if_true]
   rw [parseTLVs_enc tlvs hwf _ (Nat.le_refl _)]
   simp
 
@@ -222,7 +222,7 @@ theorem body_local_inet (proto : Nat) (hproto : proto ≠ tpUnspecified) (s d : 
   rw [parseAddresses_inet s d sp dp _ _ hs hd hsp hdp]
   simp only
   rw [fwd_local _ rfl]
-  simp
+  simp [afInet, afUnix]
 
 /-- unspecified family or transport: the whole block is ignored -/
 theorem body_unspec (cmd fam proto : Nat) (h : proto = tpUnspecified ∨ fam = afUnspecified) (payload : Bytes) :
